@@ -96,7 +96,7 @@ def insertion_candidates(rng, sut, ps, last):
     return [x for x in c if rules_ok(x)]
 
 
-def page_through(sut, w, ps, k, crawled_only, rng, stats, inserts, gid):
+def page_through(sut, w, ps, k, crawled_only, rng, stats, inserts, gid, ever=None):
     """Returns (accumulated lrus, error or None, n_calls, inserted)."""
     t = sut.t
     tok = None
@@ -136,6 +136,10 @@ def page_through(sut, w, ps, k, crawled_only, rng, stats, inserts, gid):
                 stats["C09_insertions_between_calls"] += 1
                 if sut.dead or ds:
                     return acc, "insertion diverged: %s" % (ds[:1],), calls, inserted
+                if ever is not None:
+                    # membership at this moment: a page may join W and leave it again (a later insertion can
+                    # create a nested webentity above it) between the first and the last call
+                    ever.update(expected_pages(sut.m, sut.m.page_owner(), gid, ps, False))
     return acc, None, calls, inserted
 
 
@@ -157,8 +161,9 @@ def audit_C09(sut, rng, stats, case):
                 inserts = case.get("inserts") and rng.random() < 0.5
                 owner0 = m.page_owner()
                 exp0 = expected_pages(m, owner0, gid, ps, crawled_only)
+                ever_mid = set()
                 try:
-                    acc, err, calls, inserted = page_through(sut, w, ps, k, crawled_only, rng, stats, inserts, gid)
+                    acc, err, calls, inserted = page_through(sut, w, ps, k, crawled_only, rng, stats, inserts, gid, ever_mid)
                 except Exception as e:
                     out.append(D(["C09"], "exception-in-pagination", exc=type(e).__name__, msg=str(e)[:200], gid=gid, prefixes=ps, k=k,
                                  crawled_only=crawled_only, tb=traceback.format_exc()[-500:]))
@@ -191,7 +196,7 @@ def audit_C09(sut, rng, stats, case):
                     if miss:
                         out.append(D(["C09"], "pagination-skip", gid=gid, prefixes=ps, k=k, crawled_only=crawled_only, skipped=miss[:4]))
                         return out
-                    ever = set(exp0) | set(exp1)
+                    ever = set(exp0) | set(exp1) | ever_mid | set(expected_pages(m, owner0, gid, ps, False))
                     if crawled_only:
                         ever |= set(expected_pages(m, owner1, gid, ps, False))
                     alien = [q for q in acc if q not in ever]
